@@ -50,6 +50,10 @@ def run(idx, rep, tier):
     # "the file's final line" is the count LineCounter took with the run's csv dialect (a different dialect counts different records)
     from . import c06
     c06.r1(idx, K.as_rule(rep, "R4", keep=lambda key: "LineCounter" in key))
+    # … and it is the count of the file as it is now: the end line last() and the scan's stop compare with comes out of the line-monitor
+    # cache, whose entries must not outlive a rewrite of the file (or serve another dialect's count)
+    from . import c19
+    c19.r2(idx, K.as_rule(rep, "R4", keep=lambda key: "_cache_name" in key or "cache entries are tied" in key))
     rep.stats["exhaustive"] = True
 
 
@@ -82,18 +86,23 @@ def r1(idx, rep, tier):
             detail = f"blank last line: calls {calls}, result {p.result}; documented: only _do_lasts and clear_errors, returns True"
     rep.check(okb, "R3", f"{fi.file}::Matcher.matches blank-last branch", detail, K.where(fi, fi.node))
     # stop()/skip() fired by a last() on the blank last line end that line like any other: no later component is activated
-    fd, drows = MM.do_lasts_rows(idx, 3 if tier == "quick" else 4)
+    nd = 3 if tier == "quick" else 4
+    fd, drows = MM.do_lasts_rows(idx, nd)
     rep.analysed(fd)
     badd = None
     for p, activated, fired in drows:
         if p.result[0] != "return":
             badd = f"path ends in {p.result}"
             break
-        halt = next((i for i, e in enumerate(fired) if e != "none"), None)
-        want = [f"e{i}" for i in range(len(activated) if halt is None else halt + 1)]
-        if halt is not None and activated != want:
-            badd = (f"effects fired {fired}: components activated {activated}, documented {want} "
-                    f"(after stop()/skip() fired no later component of the line runs)")
+        halt = next((i for i, e in enumerate(fired) if e in ("stop", "skip")), None)
+        want = [f"e{i}" for i in range(nd if halt is None else halt + 1)]
+        if activated != want:
+            badd = (f"effects fired {fired}: components activated {activated}, documented {want} (after stop()/skip() fired no later component of the line runs; "
+                    "a last() whose consequence faulted has its error handled by the policy and the later last()s of the line still fire)")
+            break
+        wanth = [f"e{i}" for i, e in enumerate(fired) if e == "raise"]
+        if p.__dict__.get("handled", []) != wanth:
+            badd = f"effects fired {fired}: errors handed to {p.__dict__.get('handled', [])}, documented {wanth} (each fault goes to the expression whose last() raised it)"
             break
     rep.check(badd is None and len(drows) >= 3, "R3", f"{fd.file}::Matcher._do_lasts halts after stop/skip", badd or f"{len(drows)} paths", K.where(fd, fd.node))
     # _do_lasts activates only last() components: interpreted over a component tree
@@ -255,13 +264,14 @@ def r4(idx, rep):
             n += 1
             if len(ps) != 1 or ps[0].result != ("return", end == cur):
                 bad1 = bad1 or f"end={end} current={cur}: {ps[0].result}, documented {end == cur}"
-            for line in (None, [], ["a"], ["", ""]):
+            for line in (None, [], ["a"], ["", ""], [""], [" "], ["  \t"]):   # (a record of one empty or white-space cell is a record, not a blank line)
                 it = Interp(idx, types={"self": "LineMonitor"})
                 ps = it.run_all(f2, args={"line": line}, store=store)
                 n += 1
                 want = (end == cur) and line is not None and len(line) == 0
                 if len(ps) != 1 or ps[0].result != ("return", want):
-                    bad2 = bad2 or f"end={end} current={cur} line={line}: {ps[0].result}, documented {want}"
+                    bad2 = bad2 or (f"end={end} current={cur} line={line}: {ps[0].result}, documented {want} (only the empty record [] is a blank line: it fires last() and is returned "
+                                    "by neither return-mode; any other record is a scanned line that exactly one return-mode returns)")
     # the scan's final line: Scanner.is_last on the state the productions build, including '+' lists in any order
     from . import scanner_model as SM
     import itertools
